@@ -80,8 +80,17 @@ def sampler_history_checked(rn: sc.Runner, steps):
         for k in rng.sample(sh.names, min(len(sh.names), rng.randrange(0, 4))):
             rn.op_get(0, k)
         before = rn.indep_of(0)
-        prop = rn.random_value(n)
-        rn.op_set(0, n, prop)
+        if before[n] is not None and rng.random() < 0.5:
+            # proposal made the way the samplers make it: out-of-place accumulation of a change (sometimes a zero change)
+            change = rn.random_value(n)
+            if rng.random() < 0.25:
+                change = [[0] * len(r) for r in change]
+            rn.op_put_acc(0, n, change)
+            prop = [[a + b for a, b in zip(ra, rb)] for ra, rb in zip(before[n], change)]
+            counts["by-accumulate"] = counts.get("by-accumulate", 0) + 1
+        else:
+            prop = rn.random_value(n)
+            rn.op_set(0, n, prop)
         decision = rng.choice(["accept", "reject", "partial", "partial"]) if sh.level[n] == "i" else rng.choice(["accept", "reject"])
         pool = sorted(sh.rowlocal(n)) if decision == "partial" else sh.names
         for k in rng.sample(pool, min(len(pool), rng.randrange(0, 5))):
